@@ -190,7 +190,9 @@ pub fn replay(ctx: &Ctx, case: &Value) -> Option<Report> {
         "C18" => Some(c18::replay(ctx, case)),
         "C19" => Some(c19::replay(ctx, case)),
         "C20" => {
-            if case.get("half").and_then(|h| h.as_str()) == Some("c20b-stale") {
+            if case.get("half").and_then(|h| h.as_str()) == Some("c20b-legs") {
+                Some(c20b::replay_legs(ctx, case))
+            } else if case.get("half").and_then(|h| h.as_str()) == Some("c20b-stale") {
                 Some(c20b::replay_stale(ctx, case))
             } else if case.get("half").and_then(|h| h.as_str()) == Some("c20b") {
                 Some(c20b::replay(ctx, case))
